@@ -814,7 +814,12 @@ def gen_c16(rng, sid):
                 b.burst(ms + [b.reply_ok(o)])
                 b.done(o, True)
             elif fate < 0.5:
-                b.burst([b.reply_err(o)])
+                if info["label"].get("prog") and rng.random() < 0.5:
+                    # progressive results with the ERROR right behind them
+                    b.burst([b.msg("result", req={"op": o}, tag=b.tag(), details={"progress": V("bool", b=True)})
+                             for _ in range(rng.randint(2, 4))] + [b.reply_err(o)])
+                else:
+                    b.burst([b.reply_err(o)])
                 b.done(o, False)
             elif fate < 0.75 and info["label"].get("ctx") in ("cancel",):
                 # cancel: alone, or coinciding with the reply
